@@ -21,6 +21,15 @@ package regprocessor
 // Anything the walker cannot order (lock operations in loops, switches, goroutines, stored closures,
 // the mutex escaping) makes the extraction fail rather than guess.
 //
+// The kind of an acquisition is part of the program: RLock / Lock wait (rlock, lock); TryRLock / TryLock
+// do not (tryrlock, trylock) and have two outcomes. A Try* call must be the condition of an if (possibly
+// negated): the branch taken when the lock was acquired continues the program after the try operation;
+// the branch taken when it was not is the *failure branch*. In the model a failed try ends the thread as
+// "refused" (the entry point gave up), so the failure branch must reach the exit of the entry point
+// without any further operation (deferred ones included); otherwise the extraction fails. The failure
+// path is not a table entry of its own (it is the other outcome of the try operation of the success
+// path); in the lock-order table, which has no outcomes, it is listed without the try operation.
+//
 // Coverage obligation: every SelectorExpr in the non-test sources that names the mutex or the guarded
 // field must have been visited from a root, or be an access through a variable that the same function
 // has just constructed (composite literal / new / constructor call: the object is not shared yet).
@@ -74,11 +83,12 @@ type lpState struct {
 	name   []string
 	fams   []int
 	early  bool
+	failAt int // 1 + number of operations performed when a Try* acquisition failed on this path; 0 = none did
 }
 
 func (s lpState) clone() lpState {
 	c := lpState{ops: append([]string(nil), s.ops...), name: append([]string(nil), s.name...),
-		fams: append([]int(nil), s.fams...), early: s.early}
+		fams: append([]int(nil), s.fams...), early: s.early, failAt: s.failAt}
 	for _, d := range s.defers {
 		c.defers = append(c.defers, append([]string(nil), d...))
 	}
@@ -87,7 +97,7 @@ func (s lpState) clone() lpState {
 
 func (s lpState) key() string {
 	var b strings.Builder
-	fmt.Fprintf(&b, "%s|%v|%v|%s|", strings.Join(s.name, "+"), s.fams, s.early, strings.Join(s.ops, ","))
+	fmt.Fprintf(&b, "%s|%v|%v|%d|%s|", strings.Join(s.name, "+"), s.fams, s.early, s.failAt, strings.Join(s.ops, ","))
 	for _, d := range s.defers {
 		b.WriteString(strings.Join(d, ",") + ";")
 	}
@@ -99,11 +109,12 @@ func (s lpState) key() string {
 // the last statement of every function on the way) and the operations. The name (branch labels) is
 // informational only.
 type lpPath struct {
-	root  string
-	name  []string
-	fams  []int
-	early bool
-	ops   []string
+	root   string
+	name   []string
+	fams   []int
+	early  bool
+	ops    []string
+	failAt int // as lpState.failAt
 }
 
 // lpPkg: the parsed non-test sources of the package.
@@ -197,8 +208,40 @@ func lpLockOpOf(method string) string {
 		return "lock"
 	case "Unlock":
 		return "unlock"
+	case "TryRLock":
+		return "tryrlock"
+	case "TryLock":
+		return "trylock"
 	}
 	return ""
+}
+
+// tryCond: cond is `X.mutex.TryRLock()` / `X.mutex.TryLock()` on a lock of the spec, possibly negated and
+// parenthesised: the call, the selector naming the mutex, and whether the condition is true when the
+// acquisition FAILED.
+func (x *lpEx) tryCond(cond ast.Expr) (call *ast.CallExpr, inner *ast.SelectorExpr, neg bool) {
+	for {
+		switch v := cond.(type) {
+		case *ast.ParenExpr:
+			cond = v.X
+			continue
+		case *ast.UnaryExpr:
+			if v.Op == token.NOT {
+				neg = !neg
+				cond = v.X
+				continue
+			}
+		case *ast.CallExpr:
+			if se, ok := v.Fun.(*ast.SelectorExpr); ok && len(v.Args) == 0 {
+				if in, ok := se.X.(*ast.SelectorExpr); ok && x.spec.mutexIndex(in.Sel.Name) >= 0 && !x.isFresh(in.X) {
+					if op := lpLockOpOf(se.Sel.Name); op == "tryrlock" || op == "trylock" {
+						return v, in, neg
+					}
+				}
+			}
+		}
+		return nil, nil, false
+	}
 }
 
 func (x *lpEx) isSite(e *ast.SelectorExpr) bool {
@@ -425,6 +468,11 @@ func (x *lpEx) expr(e ast.Node, in []lpState) []lpState {
 					x.fail(v, "unsupported operation on the mutex: "+se.Sel.Name)
 					return in
 				}
+				if op == "tryrlock" || op == "trylock" {
+					// reached only when the call is not itself the condition of an if (see stmt)
+					x.fail(v, se.Sel.Name+" whose result is not tested directly by the condition of an if: the walker cannot tell the branch that holds the lock from the one that does not")
+					return in
+				}
 				if len(x.spec.more) > 0 {
 					op = fmt.Sprintf("%s@%d", op, x.spec.mutexIndex(inner.Sel.Name))
 				}
@@ -553,7 +601,7 @@ func (x *lpEx) terminate(states []lpState, suffix string, early bool) {
 		if suffix != "" {
 			name = append(name, suffix)
 		}
-		*x.sink = append(*x.sink, lpPath{name: name, ops: ops, fams: append([]int(nil), s.fams...), early: s.early || early})
+		*x.sink = append(*x.sink, lpPath{name: name, ops: ops, fams: append([]int(nil), s.fams...), early: s.early || early, failAt: s.failAt})
 	}
 }
 
@@ -583,7 +631,7 @@ func (x *lpEx) inline(fd *ast.FuncDecl, in []lpState) []lpState {
 	var out []lpState
 	for _, s := range in {
 		x.depth++
-		sub := x.run(fd.Body, []lpState{{ops: s.ops, name: s.name, fams: s.fams, early: s.early}})
+		sub := x.run(fd.Body, []lpState{{ops: s.ops, name: s.name, fams: s.fams, early: s.early, failAt: s.failAt}})
 		x.depth--
 		for _, p := range sub {
 			// a "return" marker of the callee is not an exit of the caller
@@ -598,6 +646,7 @@ func (x *lpEx) inline(fd *ast.FuncDecl, in []lpState) []lpState {
 			c.name = nm
 			c.fams = p.fams
 			c.early = p.early
+			c.failAt = p.failAt
 			out = append(out, c)
 		}
 	}
@@ -707,6 +756,39 @@ func (x *lpEx) stmt(st ast.Stmt, in []lpState, nest int) []lpState {
 	case *ast.IfStmt:
 		if v.Init != nil {
 			in = x.stmt(v.Init, in, nest)
+		}
+		if call, inner, neg := x.tryCond(v.Cond); call != nil {
+			// a non-waiting acquisition: one branch holds the lock, the other does not
+			op := lpLockOpOf(call.Fun.(*ast.SelectorExpr).Sel.Name)
+			if len(x.spec.more) > 0 {
+				op = fmt.Sprintf("%s@%d", op, x.spec.mutexIndex(inner.Sel.Name))
+			}
+			in = x.expr(inner.X, in)
+			x.visited[inner.Pos()] = true
+			got := lpAppendOp(in, op)
+			for i := range got {
+				got[i].name = append(got[i].name, "try")
+			}
+			var failed []lpState
+			for _, s := range in {
+				c := s.clone()
+				c.name = append(c.name, "tryfail")
+				if c.failAt == 0 {
+					c.failAt = 1 + len(c.ops)
+				}
+				failed = append(failed, c)
+			}
+			thenIn, elseIn := got, failed
+			if neg {
+				thenIn, elseIn = failed, got
+			}
+			out := x.stmts(v.Body.List, thenIn, nest+1)
+			if v.Else != nil {
+				out = append(out, x.stmt(v.Else, elseIn, nest+1)...)
+			} else {
+				out = append(out, elseIn...)
+			}
+			return out
 		}
 		in = x.expr(v.Cond, in)
 		ops := x.hasOps(v.Body) || (v.Else != nil && x.hasOps(v.Else))
@@ -843,6 +925,15 @@ func lpExtract(pk *lpPkg, spec lpSpec) ([]lpPath, []lpCov, []string) {
 		}
 		seen := map[string]bool{}
 		for _, p := range x.run(fd.Body, []lpState{{}}) {
+			if p.failAt > 0 && len(spec.more) == 0 {
+				// the failure branch of a Try*: the other outcome of the try operation of the success path, which
+				// the model ends there ("refused"); it must not do anything else before the entry point returns
+				if extra := p.ops[p.failAt-1:]; len(extra) > 0 {
+					x.errs = append(x.errs, fmt.Sprintf("%s: %s: after a Try* acquisition failed the path goes on to %s: not representable in the linear lock programs (the model ends a thread whose try failed)",
+						pk.fset.Position(fd.Pos()), root, strings.Join(extra, ", ")))
+				}
+				continue
+			}
 			k := fmt.Sprintf("%v|%v|%s", p.fams, p.early, strings.Join(p.ops, ","))
 			if seen[k] {
 				continue
